@@ -666,17 +666,12 @@ def run_align(case):
 # =================================================================== revoke
 
 def gen_revoke(rng):
-    for _ in range(20):
-        mpu = [(0, 0, 0)] * 12
-        mpu[0] = (1 | 31 << 1, 0, 3 << 8)
-        mpu[DREG] = (0 | 7 << 1, P.DBASE, rng.choice([0, 0, 5, 6]) << 8)          # the main program's data page (256 B), initially not enabled
-        core, meta = build_program_case(rng, allow=('alu', 'mem', 'mem', 'stack', 'loop', 'cond', 'it', 'multi'), extra_sys=dict(G.mpu_sys(mpu)), rec_data=False)
-        core['regs']['sys']['sctlr'] = G.sctlr_value(m=1, a=0, u=1, te=meta['te'], v=0, br=1, ee=meta.get('ee', 0))
-        n = fault_free_ticks(core, meta)
-        if n is not None:
-            break
-    else:
-        raise RuntimeError('no terminating program')
+    mpu = [(0, 0, 0)] * 12
+    mpu[0] = (1 | 31 << 1, 0, 3 << 8)
+    mpu[DREG] = (0 | 7 << 1, P.DBASE, rng.choice([0, 0, 5, 6]) << 8)          # the main program's data page (256 B), initially not enabled
+    core, meta = build_program_case(rng, allow=('alu', 'mem', 'mem', 'stack', 'loop', 'cond', 'it', 'multi'), extra_sys=dict(G.mpu_sys(mpu)), rec_data=False)
+    core['regs']['sys']['sctlr'] = G.sctlr_value(m=1, a=0, u=1, te=meta['te'], v=0, br=1, ee=meta.get('ee', 0))
+    n = fault_free_ticks(core, meta) or 300             # (a program that does not finish fault-free is reported by the run, not regenerated)
     events = []
     for _ in range(rng.choice([1, 1, 2, 3, 5])):
         events.append({'tick': rng.randrange(0, max(1, n)), 'core': 0, 'kind': 'sys', 'name': 'drsrs', 'index': DREG, 'value': mpu[DREG][0] | 1, 'tag': 'mpu-revoke'})
